@@ -91,3 +91,40 @@ Theorem C01_tcp_orig_refuted :
    snd r = Err 10 /\ render_panics_orig (fst (fst r)) = (true, true)).
 Proof. vm_compute. repeat split. Qed.
 Print Assumptions C01_tcp_orig_refuted.
+
+(* ---------------------------------------------------------------- C07 *)
+(* SerializeTo never panics: for EVERY layer value (any field values, any option list, any
+   padding - in particular everything decoding leaves behind, error residues included, and
+   everything that can be built from the public fields), every payload, the four option
+   combinations, with or without a network layer, whatever the buffer region held before. *)
+Theorem C07_tcp_no_panic : forall t payload fx csum ph junk s,
+  fst (serialize t payload fx csum ph junk) <> Panic s.
+Proof. intros t payload fx csum ph junk. apply np_not_panic. apply serialize_np. Qed.
+Print Assumptions C07_tcp_no_panic.
+
+(* every byte of the region returned by PrependBytes is written: bytes, error and the layer left
+   behind do not depend on the region's prior content *)
+Theorem C07_tcp_junk_free : forall t payload fx csum ph junk1 junk2,
+  serialize t payload fx csum ph junk1 = serialize t payload fx csum ph junk2.
+Proof. exact serialize_junk_free. Qed.
+Print Assumptions C07_tcp_junk_free.
+
+(* the closed form: what is written, as a function of the layer alone *)
+Theorem C07_tcp_output : forall t payload fx csum ph junk,
+  serialize t payload fx csum ph junk = ser_spec t payload fx csum ph.
+Proof. exact serialize_spec. Qed.
+
+(* repeating SerializeTo on the layer it mutated (FixLengths, ComputeChecksums) gives the same
+   bytes and the same layer *)
+Theorem C07_tcp_idempotent_fields : forall t payload fx csum ph junk1 junk2,
+  serialize (snd (serialize t payload fx csum ph junk1)) payload fx csum ph junk2
+  = serialize t payload fx csum ph junk1.
+Proof. exact serialize_again. Qed.
+Print Assumptions C07_tcp_idempotent_fields.
+
+(* non-vacuity: a layer with a 3-byte option (padding needed), odd payload, dirty buffer *)
+Example C07_tcp_nonvacuous :
+  let t := fst (fst (decode_into tcp0 (hdr 6 [3;3;7;0]) [])) in
+  fst (serialize t [1;2;3] true true (Some (ph4 [10;0;0;1] [10;0;0;2])) (repeat 170 64)) =
+  Ok [4;210;0;80;0;0;0;1;0;0;0;2;96;16;0;100;120;61;0;0;3;3;7;0;1;2;3].
+Proof. vm_compute. reflexivity. Qed.
